@@ -141,14 +141,22 @@ def first_piece_class(cuts, n):
     return 'first%d' % cuts[0] if cuts[0] <= 3 else 'firstN'
 
 
-def check_body(classes, coding, body, meta, rng, part, exhaustive_limit, thorough, kind):
+def check_body(classes, coding, body, meta, rng, part, exhaustive_limit, thorough, kind, self_reference=False):
     cls = classes[coding]
-    try:
-        expected = ref_decode(body, coding)
-        ref_err = None
-    except RefError as e:
-        expected = None
-        ref_err = str(e)
+    if self_reference:
+        # what the one-shot result should be is not fixed from outside (members after the first): the decoder's own
+        # result for the undivided body is the reference for every split of it
+        try:
+            expected, ref_err = run_split(cls, body, []), None
+        except zlib.error as e:
+            expected, ref_err = None, str(e)
+    else:
+        try:
+            expected = ref_decode(body, coding)
+            ref_err = None
+        except RefError as e:
+            expected = None
+            ref_err = str(e)
     n = len(body)
     for cuts in splits_for(rng, n, exhaustive_limit, thorough):
         part.evaluations += 1
@@ -156,7 +164,7 @@ def check_body(classes, coding, body, meta, rng, part, exhaustive_limit, thoroug
         fp = first_piece_class(cuts, n)
         part.nontrivial_case('{}/{}/{}/{}'.format(coding, meta.get('form'), kind, fp) + '/' +
                              str(meta.get('level')) + '/' + str(min(len(cuts), 5)))
-        replay = {'coding': coding, 'body': body, 'cuts': cuts, 'kind': kind}
+        replay = {'coding': coding, 'body': body, 'cuts': cuts, 'kind': kind, 'self_reference': self_reference}
         try:
             got = run_split(cls, body, cuts)
             err = None
@@ -262,6 +270,9 @@ def stream_workload(rng, part, n_sequences):
             specs.append({'payload': payload, 'form': form, 'coding': header, 'body': body, 'pieces': pieces, 'damage': damage,
                           'framing': framing})
         results = []
+        # the file argument of read_body() is optional (bodies of intermediate responses are consumed without one): the
+        # body is framed, decoded and checked all the same
+        no_file = rng.random() < 0.2
 
         async def main():
             net = netsim.Net().install()
@@ -277,7 +288,7 @@ def stream_workload(rng, part, n_sequences):
                     try:
                         await stream.write_request(request)
                         response = await stream.read_response()
-                        await stream.read_body(request, response, file=buf)
+                        await stream.read_body(request, response, file=None if no_file else buf)
                         results.append((None, buf.getvalue()))
                     except Exception as e:
                         results.append((e, buf.getvalue()))
@@ -307,14 +318,18 @@ def stream_workload(rng, part, n_sequences):
                     part.violation('stream-valid-body-rejected/{}/after-{}{}'.format(sp['form'], prev_form,
                                                                                         '/chunked' if sp['framing'] == 'chunked' else ''),
                                    {'error': repr(exc)[:200], 'position': i}, replay)
+                elif no_file:
+                    part.count('stream_bodies_read_without_a_file')
                 elif got != expected:
                     part.violation('stream-body-differs/{}/after-{}'.format(sp['form'], prev_form),
                                    {'got_len': len(got), 'want_len': len(expected), 'position': i}, replay)
                 else:
                     part.count('stream_bodies_equal_to_oneshot')
             else:
+                if no_file:
+                    part.count('stream_bad_bodies_read_without_a_file')
                 if exc is None:
-                    part.violation('stream-{}-body-accepted/{}'.format(sp['damage'] or 'bad', sp['form']),
+                    part.violation('stream-{}-body-accepted/{}{}'.format(sp['damage'] or 'bad', sp['form'], '/no-file' if no_file else ''),
                                    {'got_len': len(got), 'reference_error': ref_err}, replay)
                 elif not isinstance(exc, (ProtocolError, NetworkError)):
                     part.violation('stream-wrong-error-kind/{}'.format(type(exc).__name__), {'error': repr(exc)[:200]}, replay)
@@ -345,7 +360,8 @@ def worker(job):
                                       for x in rp['stream_sequence']]})
             part.evaluations += 1
             return part.dump()
-        check_body(classes, rp['coding'], rp['body'], {'form': 'replay'}, rng, part, 0, False, rp.get('kind', 'valid'))
+        check_body(classes, rp['coding'], rp['body'], {'form': 'replay'}, rng, part, 0, False, rp.get('kind', 'valid'),
+                   self_reference=rp.get('self_reference', False))
         # and the exact split
         try:
             got = run_split(classes[rp['coding']], rp['body'], rp['cuts'])
@@ -371,6 +387,23 @@ def worker(job):
         check_body(classes, coding, body, meta, rng, part, job['exhaustive_limit'], thorough, 'valid')
         if i % 50 == 0:
             part.sample({'coding': coding, 'meta': meta, 'payload_len': len(payload), 'encoded_len': len(body)})
+        if form == 'gzip' and i % 5 == 0 and len(payload) < BIG - 1:
+            # several gzip members in a row (RFC 1952 2.2), the last one possibly cut short or followed by other bytes:
+            # whatever a decoder makes of the members after the first, it must make the same of them for every split
+            multi = body
+            for _ in range(rng.choice([1, 2, 2, 3])):
+                more, _m = encode(rng, make_payload(rng, big=0)[:rng.choice([0, 5, 300, 5000])], 'gzip')
+                multi += more
+            tail = rng.choice(['', '', 'cut', 'garbage', 'zeros'])
+            if tail == 'cut':
+                multi = multi[:len(multi) - rng.randrange(1, min(12, len(more)))]
+            elif tail == 'garbage':
+                multi += bytes(rng.randrange(256) for _ in range(rng.randrange(1, 20)))
+            elif tail == 'zeros':
+                multi += b'\x00' * rng.randrange(1, 600)
+            part.count('bodies_of_several_gzip_members')
+            check_body(classes, 'gzip', multi, dict(meta, form='gzip-multi-member' + ('-' + tail if tail else '')), rng, part,
+                       job['exhaustive_limit'], thorough, 'valid', self_reference=True)
         if form == 'identity-as-gzip' or len(payload) >= BIG - 1:
             continue
         # truncated: every strict non-empty prefix of small encodings, sampled prefixes of large ones
